@@ -275,6 +275,39 @@ var shapes12 = []string{
 	"enum E { A = 99999999999999999999; }", "enum E { A = -99999999999999999999; }", "message M { reserved 99999999999999999999; }", "message M { reserved 1 to -1; }", "enum E { reserved 5 to 1; }",
 }
 
+// specialOptionShapes: every option name the parser or the basic validation looks up by name, in compact form
+// without a value, with an empty value and as the head of a path, in every syntax and on every kind of element
+// that takes compact options.
+func specialOptionShapes() []string {
+	names := []string{"default", "json_name", "packed", "features", "deprecated", "lazy", "ctype", "jstype", "weak", "retention", "targets", "edition_defaults",
+		"message_set_wire_format", "allow_alias", "map_entry", "uninterpreted_option", "debug_redact", "unverified_lazy", "verification", "declaration"}
+	heads := []string{"syntax = \"proto2\";\n", "syntax = \"proto3\";\n", "edition = \"2023\";\n", ""}
+	var out []string
+	for hi, h := range heads {
+		lbl := "optional "
+		if hi == 1 || hi == 2 {
+			lbl = ""
+		}
+		for _, n := range names {
+			for _, form := range []string{"[%s]", "[%s = ]", "[%s.x = 1]", "[%s, %s = 1]", "[(%s)]"} {
+				o := strings.ReplaceAll(form, "%s", n)
+				out = append(out,
+					h+"message M { "+lbl+"int32 f = 1 "+o+"; }",
+					h+"enum E { A = 0 "+o+"; }",
+					h+"message M { extensions 1 to 5 "+o+"; }",
+					h+"message M { repeated int32 f = 1 "+o+"; map<string, int32> m = 2 "+o+"; }",
+				)
+				if hi == 0 {
+					out = append(out, h+"message M { optional group G = 1 "+o+" { } }")
+				}
+			}
+		}
+	}
+	return out
+}
+
+var specialShapes12 = specialOptionShapes()
+
 type deepCase struct {
 	name string
 	make func(d int) string
@@ -402,6 +435,7 @@ func TestC12(t *testing.T) {
 	stages := []stage{
 		{"hand", len(handTexts), func(i int, _ *vlib.RNG) []byte { return []byte(handTexts[i]) }},
 		{"shapes", len(shapes12), func(i int, _ *vlib.RNG) []byte { return []byte(shapes12[i]) }},
+		{"special-option-shapes", len(specialShapes12), func(i int, _ *vlib.RNG) []byte { return []byte(specialShapes12[i]) }},
 		{"random", r.N(12000, 500000), func(_ int, rng *vlib.RNG) []byte { return genRandomBytes(rng) }},
 		{"soup", r.N(14000, 600000), func(_ int, rng *vlib.RNG) []byte { return genSoup(rng) }},
 		{"trunc", len(truncs), func(i int, _ *vlib.RNG) []byte { t := truncs[i]; return small[t.file].Text[:t.off] }},
